@@ -100,6 +100,10 @@ def plan_for(prop, tier, seed):
             P.add(e, "T2", "T34")
         cwset = ["ab", "ba", "abab", "bbab", "aabb", "babb", "aaab", "bbba", "abba", "baab", "aaaa", "bbbb"]
         P.add(Entry("cw_blocks_n1", "charwise", "standard", cwset, nfb=1), "T1", "T2")   # char-wise eviction
+        # char-wise eviction with a window of 3 blocks over a 13-letter kana alphabet (the fallback-base path of the
+        # char-wise builder after an eviction; edges only: a few seconds)
+        cw13 = [a + b for a in "あいうえおかきくけこさしす" for b in "あいう"] + ["すすす", "ああい", "いうえお"]
+        P.add(Entry("cw_kana_n3", "charwise", "standard", cw13, nfb=3), "T1")
         if q:
             # evicting multi-block builds, edges only (T1 on 1536 slots: ~20 s)
             P.add(bw("evict3", nfb=1, suffix="_n1"), "T1")
